@@ -73,9 +73,16 @@ package messages
 //@   pure
 //@   ensures r.ErrorCode == code && r.MsgType == 30 && r.PVNO == 5 && r.SName == sname && r.Realm == realm && r.EText == etext
 
+// A PAC found in the ticket is reported without error only if it has the mandatory buffers and its server signature
+// verifies under a keytab key matching the (override) service principal, realm, kvno and etype of the ticket
+// (property C19).
 //@ func (*messages.Ticket).GetPACType(t, kt, sname, l) (isPAC, pac, err)
 //@   pure
 //@   sets lastPACBad := isPAC && err != nil
+//@   ensures isPAC && err == nil ==> pac.KerbValidationInfo != nil && pac.ServerChecksum != nil && pac.KDCChecksum != nil && pac.ClientInfo != nil
+//@   ensures isPAC && err == nil ==> exists j int, ct Ref :: 0 <= j && j < len(kt.Entries) && kmatch(kt.Entries[j], ite(sname != nil, *sname, t.SName), t.Realm, t.EncPart.KVNO, t.EncPart.EType)
+//@        && cksum_etype_ok(int32(pac.ServerChecksum.SignatureType), ct) && bytes(pac.ServerChecksum.Signature) == et_cksum(ct, bytes(kt.Entries[j].Key.KeyValue), 17, bytes(pac.ZeroSigData))
+//@   loop 1 invariant -1 <= rangeindex && rangeindex < len(t.DecryptedEncPart.AuthorizationData) && !isPAC
 //@   trusted_frame decoding works on copies; the ticket, keytab and settings are only read
 
 // ---- client side: a KDC reply is accepted only if it answers the request sent (property C09, RFC 4120 3.1.5 / 3.3.4)
